@@ -279,6 +279,29 @@ func TestConstructedAggregates(t *testing.T) {
 				t.Fatalf("empty aggregate commit with height %d (certified %d): err=%v", h, cert, err)
 			}
 		}
+		// half-empty commits (bits without a signature, a signature without bits) are aggregates over nobody: never accepted,
+		// neither at the certified height (where only the wholly empty commit stands for "nothing new") nor above it
+		someSig := bytes.Repeat([]byte{0xa5}, 96)
+		if cert > 0 {
+			if p, err := n.CurrentParams(cert); err == nil {
+				if hd, err := n.Chain.DataAccess().GetBlockHeaderByHeight(cert); err == nil {
+					if ac, err := n.BuildAggregateFor(hd, cert, p.Idx, node.ChainID); err == nil {
+						someSig = ac.CertificateSignature // the genuine signature of the certified height
+					}
+				}
+			}
+		}
+		for _, h := range []uint32{cert, cert + 1} {
+			for name, ac := range map[string]*blockchain.AggregateCommit{
+				"signature-without-bits": {Height: h, AggregationBits: []byte{}, CertificateSignature: someSig},
+				"bits-without-signature": {Height: h, AggregationBits: []byte{0x0f}, CertificateSignature: []byte{}},
+			} {
+				if err := n.Exec.VerifVerifyAggregateCommit(n.Store(), ac); err == nil {
+					t.Fatalf("half-empty aggregate commit (%s) accepted at height %d (certified %d)\n%s", name, h, cert, strings.Join(hist, "\n"))
+				}
+				evid.R.Case(fmt.Sprintf("%v|half-empty|%s|%d", hist, name, h), h == cert, nil, "constructed", "tamper-half-empty")
+			}
+		}
 	})
 }
 
